@@ -319,8 +319,17 @@ def setters_vs_fresh(ctx, emg3d, rng):
             G, _ = gen_fourier(emg3d, rng, t + 1)
         except Exception:       # noqa
             continue
+        def spec(fc, a):
+            return a/(1+1j*fc/fc.mean()) + 0.01*a*np.cos(fc)
+
         with warnings.catch_warnings():
             warnings.simplefilter('ignore')
+            # a first result on the old parameters, kept by the caller
+            try:
+                o1 = F.interpolate(spec(F.freq_compute, 2.0))
+                o1c = o1.copy()
+            except Exception:       # noqa
+                o1 = o1c = None
             # move F to G's parameters through the documented setters
             F.signal = G.signal
             F.fourier_arguments(G.ft, dict(G.ftarg))
@@ -340,6 +349,32 @@ def setters_vs_fresh(ctx, emg3d, rng):
                 f'Fourier changed through its setters differs from a fresh '
                 f'instance with the same parameters (attribute groups {k})',
                 {'from': repr(tag), 'fmin': G.fmin, 'fmax': G.fmax})
+        elif G.freq_compute.size >= 4:
+            # the filled spectrum carries nothing over from earlier calls
+            with warnings.catch_warnings():
+                warnings.simplefilter('ignore')
+                fd = spec(G.freq_compute, 1.0)
+                fa = F.interpolate(fd.copy())
+                fac = fa.copy()
+                fb = G.interpolate(fd.copy())
+                fa2 = F.interpolate(3.0*fd)
+            if not np.array_equal(fa, fb):
+                bad.append(('interpolate-after-setters', tag))
+                ctx.violation(
+                    'interpolate-carries-state',
+                    f'Fourier moved by its setters from {tag}: interpolate() '
+                    f'differs from a fresh instance on the same data (max '
+                    f'|diff| {float(np.max(np.abs(fa-fb))):.3g})',
+                    {'from': repr(tag), 'fmin': G.fmin, 'fmax': G.fmax})
+            elif not np.array_equal(fa, fac) or (
+                    o1 is not None and not np.array_equal(o1, o1c)):
+                bad.append(('interpolate-overwrites-earlier-result', tag))
+                ctx.violation(
+                    'interpolate-carries-state',
+                    f'Fourier {tag}: a later interpolate() call changed the '
+                    f'array returned by an earlier one', {'from': repr(tag)})
+            elif not np.allclose(fa2, 3.0*fb, rtol=1e-10, atol=0):
+                bad.append(('interpolate-not-linear', tag))
         ctx.count(key=('setters-fresh', t))
     # the signal alone: switch-off <-> switch-on on the same instance
     import empymod
